@@ -327,5 +327,5 @@ func TestProp(t *testing.T) {
 	if len(names()) != nPlain+4 {
 		t.Fatalf("could not construct colliding name pairs")
 	}
-	vt.Run(t, prop, vt.Sub[Case]{Prop: prop, Name: "history", Gen: gen, Run: run, Classify: classify}.WithBudget(1200, 6000))
+	vt.Run(t, prop, vt.Sub[Case]{Prop: prop, Name: "history", Gen: gen, Run: run, Classify: classify}.WithBudget(3000, 8000))
 }
